@@ -117,10 +117,42 @@ def _scope_edges(constraints):
     return sorted(e)
 
 
+def _gen_unsat_cycle(rng, tier):
+    """structured stream (seeded change C09-r3m3): an UNSATISFIABLE 2-colouring - an odd cycle with a tail -
+    with max_distance = diameter >= 2 and a long run.  No computation may ever call finished(); a termination
+    counter that is not reset by a far-away violation (e.g. the min-merge skipped for improve messages that were
+    postponed because the sender is one phase ahead) makes a computation at the end of the tail finish."""
+    inf = 10000
+    if rng.random() < 0.7:
+        cyc, tail = 3, rng.randint(1, 3)
+    else:
+        cyc, tail = 5, rng.randint(0, 1)
+    nv = cyc + tail
+    lab = list(range(nv))
+    rng.shuffle(lab)
+    pairs = [(lab[i], lab[(i + 1) % cyc]) for i in range(cyc)]
+    prev = lab[rng.randrange(cyc)]
+    for t in range(tail):
+        pairs.append((prev, lab[cyc + t]))
+        prev = lab[cyc + t]
+    pool = rng.choice([[0, 1], [0, 1], [1, 2], [5, 3]])
+    constraints = []
+    for (a, b) in pairs:
+        a, b = (a, b) if rng.random() < 0.5 else (b, a)
+        constraints.append(dict(scope=[a, b], form=rng.choice(["matrix", "neq", "neq"]),
+                                table=[[[x, x], inf] for x in pool]))
+    rng.shuffle(constraints)
+    diam = _diameter(nv, _scope_edges(constraints))
+    return dict(nvars=nv, doms={str(i): list(pool) for i in range(nv)}, constraints=constraints, infinity=inf,
+                maxd=diam, diameter=diam, seed=rng.randrange(10**9),
+                steps=450 if tier == "quick" else rng.choice([600, 900]))
+
+
 def gen(rng, n, tier):
     import itertools
     cases = []
-    for _ in range(n):
+    n_struct = max(4, n // 40) if n >= 40 else 0     # the LAST n_struct cases come from the structured stream
+    for _ in range(n - n_struct):
         nv = rng.choice([1, 2, 2, 3, 3, 3, 4, 4, 4, 5, 5, 6])
         r = rng.random()
         inf = 10000 if r < 0.75 else rng.choice([1, 1, 2, 2, 3, 0])
@@ -190,6 +222,8 @@ def gen(rng, n, tier):
         cases.append(dict(nvars=nv, doms=doms, constraints=constraints, infinity=inf, maxd=maxd,
                           diameter=diam, seed=rng.randrange(10**9),
                           steps=rng.choice([60, 150, 300, 300, 450]) if tier == "quick" else rng.choice([150, 300, 600, 900])))
+    for _ in range(n_struct):
+        cases.append(_gen_unsat_cycle(rng, tier))
     return cases
 
 
